@@ -1,9 +1,11 @@
 #!/bin/sh
 # Offline setup: third-party helpers for the harness go into the git-ignored .deps
-set -e
+# (icontract, lark, jsonschema from the offline wheelhouse), then the oracles are
+# cross-validated against the tables pinned by the repository's own tests.
 cd "$(dirname "$0")"
 if [ ! -d .deps/lark ] || [ ! -d .deps/icontract ]; then
   /venv/bin/pip install -q --no-index --find-links /opt/veriftools/wheels --target .deps icontract lark jsonschema >/dev/null 2>&1 || \
-  /venv/bin/pip install --no-index --find-links /opt/veriftools/wheels --target .deps icontract lark jsonschema
+  /venv/bin/pip install --no-index --find-links /opt/veriftools/wheels --target .deps icontract lark jsonschema || exit 1
 fi
+./selfcheck || echo "WARNING: oracle cross-validation failed (see above); checks still run, treat their verdicts with care"
 echo "setup ok"
